@@ -84,6 +84,21 @@ pub fn m_build(start: MStart, hist: &[MOp], ids: &[u32]) -> Result<(Vec<u32>, us
         }
     }
     m_observe(&m, &r, ids, "")?;
+    // get_mut agrees with get, and a value written through it is the value read back
+    for &id in ids {
+        let a = m.get_mut(NameId(id)).map(|v| {
+            *v += 5000;
+            *v
+        });
+        let b = r.get_mut(&id).map(|v| {
+            *v += 5000;
+            *v
+        });
+        if a != b {
+            return Err(("get_mut".into(), format!("get_mut({id}) = {a:?}, reference {b:?}")));
+        }
+    }
+    m_observe(&m, &r, ids, "after writes through get_mut: ")?;
     // serde round trip, then the same observations
     let text = serde_json::to_string(&m).map_err(|e| ("serde-ser".to_string(), e.to_string()))?;
     let back: Mapping<NameId, u32> = serde_json::from_str(&text).map_err(|e| ("serde-de".to_string(), format!("{e} on {text}")))?;
@@ -92,15 +107,22 @@ pub fn m_build(start: MStart, hist: &[MOp], ids: &[u32]) -> Result<(Vec<u32>, us
 }
 
 fn m_observe(m: &Mapping<NameId, u32>, r: &BTreeMap<u32, u32>, ids: &[u32], ctx: &str) -> Result<(), (String, String)> {
+    let pre = if ctx.is_empty() {
+        ""
+    } else if ctx.contains("serde") {
+        "serde-"
+    } else {
+        "getmut-"
+    };
     for &id in ids {
         let a = m.get(NameId(id)).copied();
         let b = r.get(&id).copied();
         if a != b {
-            return Err((format!("{}get", if ctx.is_empty() { "" } else { "serde-" }), format!("{ctx}get({id}) = {a:?}, reference {b:?}")));
+            return Err((format!("{}get", pre), format!("{ctx}get({id}) = {a:?}, reference {b:?}")));
         }
     }
     if m.len() != r.len() {
-        return Err((format!("{}len", if ctx.is_empty() { "" } else { "serde-" }), format!("{ctx}len() = {}, reference {}", m.len(), r.len())));
+        return Err((format!("{}len", pre), format!("{ctx}len() = {}, reference {}", m.len(), r.len())));
     }
     if m.is_empty() != r.is_empty() {
         return Err(("is_empty".into(), format!("{ctx}is_empty() = {}", m.is_empty())));
@@ -110,7 +132,7 @@ fn m_observe(m: &Mapping<NameId, u32>, r: &BTreeMap<u32, u32>, ids: &[u32], ctx:
     if it != rf {
         let sparse = rf.iter().any(|(k, _)| *k as usize >= rf.len());
         return Err((
-            format!("{}iter{}", if ctx.is_empty() { "" } else { "serde-" }, if sparse { ":sparse-ids" } else { "" }),
+            format!("{}iter{}", pre, if sparse { ":sparse-ids" } else { "" }),
             format!("{ctx}iter() yields {it:?}, reference {rf:?}"),
         ));
     }
